@@ -130,7 +130,7 @@ def lifted(prog, q):
         i1 = _c(f.read_cell("index"))
         res["r"] = [processed] + [_c(f.read_cell(nm)) for nm in ("esc", "piq", "em", "pp")] + [i1, _c(f.read_cell("carried")), _c(f.read_cell("position"))]
         r = f.region("indexes")
-        if a[5] <= i1 <= INDEX_SIZE:
+        if a[5] <= i1 <= INDEX_SIZE:      # translator-validation vectors never overflow the buffer
             res["idx"] = [_c(x86.join([r.byte(4 * k + j, f) for j in range(4)])) for k in range(a[5], i1)]
     elif op == "psv":
         b = _buf_region(st, "src", buf)
